@@ -141,15 +141,17 @@ type fakeCF struct {
 
 func recName(n string) string { return n + ".z1.example" }
 
-func newFakeCF(init []pubRec, quoted bool) *fakeCF { return newFakeCFSized(init, quoted, false) }
+func newFakeCF(init []pubRec, quoted bool) *fakeCF { return newFakeCFSized(init, quoted, false, 0) }
 
-func newFakeCFSized(init []pubRec, quoted, bigPages bool) *fakeCF {
+// lead: number of other records the zone lists before the three pages of the specification (a multiple of the page size): a
+// zone with a thousand records and more is still "several pages"
+func newFakeCFSized(init []pubRec, quoted, bigPages bool, lead int) *fakeCF {
 	f := &fakeCF{}
 	// 45 records on 3 pages of 20; the abstract records sit on their page, fillers elsewhere
-	slots := make([]*fakeRec, 45)
+	slots := make([]*fakeRec, lead+45)
 	used := map[int]int{}
 	for _, r := range init {
-		idx := (r.Page-1)*20 + 3 + used[r.Page]
+		idx := lead + (r.Page-1)*20 + 3 + used[r.Page]
 		used[r.Page]++
 		var ps []string
 		for _, p := range r.Params {
@@ -160,10 +162,10 @@ func newFakeCFSized(init []pubRec, quoted, bigPages bool) *fakeCF {
 	for i := range slots {
 		if slots[i] == nil {
 			val := `alpn="h2" ech="ZmlsbGVy"`
-			if bigPages && i >= 20 && i < 40 { // a page of records with long values: the page is far larger than 64 KiB
+			if bigPages && i >= lead+20 && i < lead+40 { // a page of records with long values: the page is far larger than 64 KiB
 				val = `alpn="h2" ech="` + strings.Repeat("QUJD", 1200) + `"`
 			}
-			slots[i] = &fakeRec{ID: fmt.Sprintf("fill-%02d", i), Name: fmt.Sprintf("fill%02d.z1.example", i), Value: val, Prio: 1, Tgt: "."}
+			slots[i] = &fakeRec{ID: fmt.Sprintf("fill-%02d", i-lead), Name: fmt.Sprintf("fill%02d.z1.example", i-lead), Value: val, Prio: 1, Tgt: "."}
 		}
 	}
 	f.recs = slots
@@ -274,7 +276,18 @@ func replayPubCase(c *pubCase, idx int) (diff string) {
 			}
 		}
 	}()
-	f := newFakeCFSized(c.Init, idx%3 != 1, idx%5 == 2) // every third zone stores unquoted values; every fifth has a very large page
+	// every third zone stores unquoted values; every fifth has a very large page; every eleventh case without a scripted listing
+	// failure runs on a zone of 1045 records (the three pages of the specification are the last of 53)
+	lead := 0
+	if idx%11 == 4 {
+		lead = 1000
+		for _, call := range c.Calls {
+			if call.Fail.Kind == "page" {
+				lead = 0
+			}
+		}
+	}
+	f := newFakeCFSized(c.Init, idx%3 != 1, idx%5 == 2, lead)
 	defer f.srv.Close()
 	f.softFail = (idx/3)%2 == 1
 	f.omitEmpty = idx%2 == 0
@@ -306,8 +319,12 @@ func replayPubCase(c *pubCase, idx int) (diff string) {
 			return fmt.Sprintf("call %d: %d results for %d targets", ci+1, len(res), len(targets))
 		}
 		var got []string
-		for _, r := range res {
+		for i, r := range res {
 			got = append(got, codes[r.Code])
+			// the error form of a result agrees with its code: nil exactly for the two successes
+			if success := r.Code == publish.StatusUpdated || r.Code == publish.StatusNoChange; (r.Err() == nil) != success {
+				return fmt.Sprintf("call %d: result %d has code %v but Err() = %v", ci+1, i+1, codes[r.Code], r.Err())
+			}
 		}
 		where := fmt.Sprintf("call %d", ci+1)
 		norm := func(l []string) []string {
